@@ -526,3 +526,10 @@ more("C11",
 more("C16",
      text="Histories in which the client edits the object's WCS in place between calls (EditWcs / EditOK in Parity.tla: the parity is a function of the object's current matrix; the "
           "reference picture is reset at the edit).")
+more("C02",
+     text="Stale parent files anywhere the walk passes, with or without children, chains included, must be replaced or removed (this supersedes the earlier 'childless stale parents "
+          "are not judged'; the defect behind it is repaired in /repo). The directory name and spelling (dots, spaces, parentheses, brackets, non-ASCII, ./relative, trailing slash) "
+          "and the route by which the format is determined (explicit / guessed from the content) are dimensions of the lift; the pyramid tile_fits leaves behind in TOAST mode for "
+          "2-3 images of disjoint footprints in several orders is compared, tile set and pixels, with TLC's evaluation of the stored base layer (spec/MCDeep.tla).")
+more("C14",
+     text="A tile that exists although no leaf lies beneath it (left by an earlier cascade) is a violation: its range describes data that does not exist.")
